@@ -226,6 +226,19 @@ func runC17(r *Run, p *Prog) {
 					}
 				}
 				ok, why := ctxRooted(T, f, ctxArg)
+				// a function value that takes a context of its own (the receive function Send hands out) must use that
+				// one, not the context of the call that created it
+				if ok {
+					own := false
+					for _, prm := range f.Params {
+						if isNamed(prm.Type(), "context", "Context") {
+							own = true
+						}
+					}
+					if own && ctxThroughFreeVar(T, ctxArg) {
+						ok, why = false, "the function has a context parameter of its own but performs the I/O under a context captured from the enclosing call: cancelling the context passed to this function does not unblock it"
+					}
+				}
 				r.Ob("D4", shortName(f), "I/O call passes the caller's context ("+calleeName(cs.Common)+")", cs.Instr.Pos(), ok, why)
 			}
 		}
@@ -818,4 +831,41 @@ func wrapperIO(T *Terms, fn *ssa.Function, in ssa.Instruction) bool {
 		}
 	}
 	return true
+}
+
+// ctxThroughFreeVar: the derivation chain of the context value v (context.With*, single-store locals) starts at a
+// variable captured from an enclosing function.
+func ctxThroughFreeVar(T *Terms, v ssa.Value) bool {
+	for i := 0; i < 6 && v != nil; i++ {
+		switch x := v.(type) {
+		case *ssa.FreeVar:
+			return true
+		case *ssa.Extract:
+			if c, ok := x.Tuple.(*ssa.Call); ok && strings.HasPrefix(calleeName(&c.Call), "context.With") {
+				v = c.Call.Args[0]
+				continue
+			}
+			return false
+		case *ssa.UnOp:
+			if _, isFV := x.X.(*ssa.FreeVar); isFV {
+				return true // a captured variable holding the context
+			}
+			if a, ok := x.X.(*ssa.Alloc); ok {
+				if val, ok := singleStore(a); ok {
+					v = val
+					continue
+				}
+			}
+			return false
+		case *ssa.Call:
+			if strings.HasPrefix(calleeName(&x.Call), "context.With") {
+				v = x.Call.Args[0]
+				continue
+			}
+			return false
+		default:
+			return false
+		}
+	}
+	return false
 }
